@@ -5,3 +5,9 @@ import JugModel.Props.C14
 #print axioms Jug.C14.load_prefix
 #print axioms Jug.C14.phase_progress
 #print axioms Jug.C14.progress_from_clean
+#print axioms Jug.C14.keeps_reloading
+#print axioms Jug.C14.completes
+#print axioms Jug.C14.done_only_when_open
+#print axioms Jug.C14.gaveUp_general
+#print axioms Jug.C14.gaveUp_after_idle
+#print axioms Jug.C14.loop_passes_le
